@@ -116,8 +116,8 @@ CHECKS = {
  "C09": ("exploration",
          "WireFuzz.tla (on Wire.tla) enumerates, for 22 network-facing schemas taken from a real node, every (field path, deviation class, truncation point) on top of valid messages (28.9 k cases) and an argument-shape model for the verifiers (20.7 k cases: bitmaps, key/signature lengths, "
          "proof shapes, indices, sizes); each case maps to ok | reject. The harness feeds every case, ~150 k structure-aware mutants, odd-but-decodable blocks and ALL byte strings up to length 3 to 217 entry points (every generated-codec Decode/DecodeStrict, constructors, gossip validators and handlers through the p2p envelope, "
-         "onRequest/onResponse, sync and txpool RPC handlers and response decoders, verifyAggregateCommit, process(), smt/rmt/BLS/ed25519 verifiers) under recover(), a 2 s deadline and an allocation ceiling, in a supervised child process.",
-         "Absence of panics/hangs is established for the enumerated and sampled inputs only; Go memory safety, time and allocation are observed, not modelled; JSON-RPC server and libp2p itself are not fuzzed.",
+         "onRequest/onResponse, sync and txpool RPC handlers and response decoders, verifyAggregateCommit, process(), smt/rmt/BLS/ed25519 verifiers) under recover(), a 2 s deadline and an allocation ceiling, in a supervised child process. The surface of an RPC client is RpcFuzz.tla: transport (router.Invoke / HTTP handler / websocket server) x JSON-RPC envelope shape x method (every endpoint the engine registers, application namespace, malformed names) x params shape x field (1 258 cases, concretised from the real request types) plus bursts of simultaneous websocket clients; block sequences of one generator with unusual maxHeightGenerated go through process().",
+         "Absence of panics/hangs is established for the enumerated and sampled inputs only; Go memory safety, time and allocation are observed, not modelled; libp2p itself is not fuzzed.",
          "TLA+-enumerated malformation model + exhaustive short inputs executed against all decoders/verifiers under recover/deadline/allocation monitors", "DESIGN.md section 4 C09"),
  "C15": ("model_checking",
          "Generator.tla: Select(pool, limit) as the set of admissible payloads (TLC enumerates all pools of <= 3 transactions x outcomes x limits: 5 484 pools, 35 904 real selections compared); generator behaviours on top of Node.tla (Forge with crash, Recv, Switch to a better possibly shorter chain, Restart) with "
